@@ -4,6 +4,7 @@ import sys
 sys.path.insert(0, os.path.dirname(os.path.abspath(__file__)))
 import core  # noqa: E402
 import genes  # noqa: E402  (kernel II: gene bookkeeping, coq/theories/Genes)
+import scenarios  # noqa: E402  (fixed small histories outside the reach of the generators)
 import groups  # noqa: E402  (kernel III: groups and identifier changes, coq/theories/Groups)
 import extras  # noqa: E402  (kernel IV: user constraints / variables, solver switch, merge; coq/theories/Extras)
 
@@ -26,5 +27,5 @@ if __name__ == "__main__":
                           "probes on the real implementation (harness/groups.py probe_variant)",
                           "extras kernel: merge's `right` model is built through the public API from a description that is "
                           "also given to the Gallina model; variants by probe (harness/extras.py probe_variant)"],
-        extra=[genes.run, groups.run, extras.run],
+        extra=[genes.run, groups.run, extras.run, scenarios.run_c02],
         extra_targets=genes.EXTRA_TARGETS + groups.EXTRA_TARGETS + extras.EXTRA_TARGETS))
